@@ -539,7 +539,7 @@ pub fn shuffle_names(m: &mut Model, rng: &mut Rng) {
     if rng.chance(0.15) && concat_twin_names(m, rng) {
         return;
     }
-    if rng.chance(0.06) {
+    if rng.chance(0.10) {
         // names that COLLIDE under a common 32-bit string hash (FNV, djb2, CRC-32, murmur3, FxHasher,
         // std's DefaultHasher truncated ...; precomputed pairs, see hashtwins.rs): pairs among the
         // nonterminals and pairs among the terminals; or names whose hash equals a reserved word's
